@@ -51,6 +51,26 @@ const (
 	arpaV6MaxLen = arpaV6MaxIPLen + len(arpaV6Suffix)
 )
 
+// toLowerASCII returns s with all ASCII upper-case letters replaced by their
+// lower-case counterparts.  Unlike [strings.ToLower], it never maps a non-ASCII
+// rune, such as U+0130 or U+212A, to an ASCII letter, so the result only ends
+// with an ARPA suffix if s itself does, ASCII-case-insensitively.
+func toLowerASCII(s string) (lower string) {
+	i := strings.IndexFunc(s, func(r rune) (ok bool) { return r >= 'A' && r <= 'Z' })
+	if i == -1 {
+		return s
+	}
+
+	b := []byte(s)
+	for ; i < len(b); i++ {
+		if c := b[i]; c >= 'A' && c <= 'Z' {
+			b[i] = c + ('a' - 'A')
+		}
+	}
+
+	return string(b)
+}
+
 // reverseIPv4 inverts the order of bytes in an IP address.
 func reverseIPv4(ip [4]byte) (out [4]byte) {
 	out[0], out[1], out[2], out[3] = ip[3], ip[2], ip[1], ip[0]
@@ -131,7 +151,7 @@ func IPFromReversedAddr(arpa string) (addr netip.Addr, err error) {
 	defer makeAddrError(&err, arpa, AddrKindARPA)
 
 	// TODO(a.garipov): Add stringutil.HasSuffixFold and remove this.
-	arpa = strings.ToLower(arpa)
+	arpa = toLowerASCII(arpa)
 	switch {
 	case strings.HasSuffix(arpa, arpaV4Suffix):
 		ipStr := arpa[:len(arpa)-len(arpaV4Suffix)]
@@ -368,7 +388,7 @@ func PrefixFromReversedAddr(arpa string) (p netip.Prefix, err error) {
 	defer makeAddrError(&err, arpa, AddrKindARPA)
 
 	// TODO(a.garipov): Add stringutil.HasSuffixFold and remove this.
-	arpa = strings.ToLower(arpa)
+	arpa = toLowerASCII(arpa)
 
 	switch {
 	case strings.HasSuffix(arpa, arpaV4Suffix[len("."):]):
@@ -432,7 +452,7 @@ func ExtractReversedAddr(domain string) (pref netip.Prefix, err error) {
 
 	defer makeAddrError(&err, domain, AddrKindARPA)
 
-	domain = strings.ToLower(domain)
+	domain = toLowerASCII(domain)
 
 	var parseSubnet func(arpa string) (pref netip.Prefix, err error)
 	var indexFirstLabel func(arpa string) (idx int)
